@@ -104,6 +104,13 @@ NUMPY_FUNCS = {
     "maximum": sp.Max, "minimum": sp.Min, "float64": lambda x: x, "asarray": lambda x: x, "array": lambda x: x,
     "atleast_1d": lambda x: x, "copysign": lambda a, b: sp.Abs(a) * sp.sign(b), "sign": sp.sign, "hypot": lambda a, b: sp.sqrt(a**2 + b**2),
     "where": lambda c, a, b: sp.Piecewise((a, c), (b, True)),
+    # the ufunc spellings of the arithmetic operators
+    "add": lambda a, b: a + b, "subtract": lambda a, b: a - b, "multiply": lambda a, b: a * b, "divide": lambda a, b: a / b,
+    "true_divide": lambda a, b: a / b, "reciprocal": lambda a: 1 / a, "negative": lambda a: -a, "positive": lambda a: a,
+    "float_power": lambda a, b: a**b, "pow": lambda a, b: a**b, "cbrt": lambda a: a**sp.Rational(1, 3), "log2": lambda x: sp.log(x, 2),
+    "exp2": lambda x: 2**x, "sinh": sp.sinh, "cosh": sp.cosh, "tan": sp.tan, "arcsin": sp.asin, "arccos": sp.acos, "fabs": sp.Abs,
+    "float32": lambda x: x, "float_": lambda x: x, "double": lambda x: x, "asfarray": lambda x: x, "asanyarray": lambda x: x,
+    "ascontiguousarray": lambda x: x, "squeeze": lambda x: x, "ravel": lambda x: x, "copy": lambda x: x,
 }
 SPECIAL = {
     "gamma": sp.gamma, "gammaincc": lambda a, x: sp.uppergamma(a, x) / sp.gamma(a),
